@@ -2688,6 +2688,11 @@ namespace awkward {
               return;
             }
             num_items = stack_pop();
+            if (num_items < 0) {
+              // a negative repeat count would move the input position backward
+              current_error_ = util::ForthError::read_beyond;
+              return;
+            }
           }
 
           I format = ~bytecode & READ_MASK;
